@@ -4,6 +4,7 @@
 usage: child.py SCHEDULE.json [any further words ...]
 schedule: {"chunks": [[delay_s, text], ...], "stdout": [[index_of_chunk_before_which, text], ...], "status": n, "linger": s,
            "close_err": bool (close standard error after the last write, before lingering),
+           "orphan": seconds a silent child process of the program outlives it, holding standard error open,
            "enc": encoding of the chunk texts ("latin-1": every character is one byte - streams that are not valid UTF-8)}
 Reports its own argument vector and WAYLAND_DEBUG on stdout (marked), writes the chunks to stderr, exits with the status.
 """
@@ -24,6 +25,11 @@ for i, (delay, text) in enumerate(s['chunks']):
 for t in marks.get(len(s['chunks']), []):
     sys.stdout.write('CHILD-STDOUT ' + t + '\n')
     sys.stdout.flush()
+if s.get('orphan'):
+    # a helper process left behind: it inherits standard error and holds it open for a while after the program has exited
+    if os.fork() == 0:
+        time.sleep(s['orphan'])
+        os._exit(0)
 if s.get('close_err'):
     os.close(2)
 if s.get('linger'):
